@@ -126,13 +126,18 @@ func (c *Calcium) doCreateWorkloads(ctx context.Context, opts *types.DeployOptio
 					processingCommits = make(map[string]wal.Commit)
 					for nodename, deploy := range deployMap {
 						nodes = append(nodes, nodeMap[nodename])
-						if workloadResourcesMap[nodename], engineParamsMap[nodename], err = c.rmgr.Alloc(ctx, nodename, deploy, opts.Resources); err != nil {
+						workloadResources, engineParams, err := c.rmgr.Alloc(ctx, nodename, deploy, opts.Resources)
+						if err != nil {
 							return err
 						}
+						// only nodes whose allocation is committed are recorded, the rollback relies on it
+						workloadResourcesMap[nodename], engineParamsMap[nodename] = workloadResources, engineParams
 						processing := opts.GetProcessing(nodename)
-						if processingCommits[nodename], err = c.wal.Log(eventProcessingCreated, processing); err != nil {
+						commit, err := c.wal.Log(eventProcessingCreated, processing)
+						if err != nil {
 							return err
 						}
+						processingCommits[nodename] = commit
 						if err = c.store.CreateProcessing(ctx, processing, deploy); err != nil {
 							return err
 						}
@@ -150,7 +155,12 @@ func (c *Calcium) doCreateWorkloads(ctx context.Context, opts *types.DeployOptio
 			// rollback: give back resources
 			func(ctx context.Context, failedOnCond bool) (err error) {
 				if failedOnCond {
-					return
+					// nothing has been deployed: give back everything the nodes visited
+					// before the failure were allocated
+					rollbackMap = make(map[string][]int)
+					for nodename, workloadResources := range workloadResourcesMap {
+						rollbackMap[nodename] = utils.Range(len(workloadResources))
+					}
 				}
 				for nodename, rollbackIndices := range rollbackMap {
 					if e := c.withNodePodLocked(ctx, nodename, func(ctx context.Context, _ *types.Node) error {
